@@ -176,7 +176,7 @@ CHECKS = {
                       "restored) x stop() at event k for sampled k over the whole reference run (quick 5, thorough 40 points per "
                       "reference, 64 / 576 references) with requests in flight, blocked getmany(), mid-rebalance second member, "
                       "fault fates on every request"),
-                note=SIM_NOTE + "; B_stop = 4 x (request + session + rebalance timeout) + 40 x backoff, runs continued to 10 x B"),
+                note=SIM_NOTE + "; B_stop = 4 x (request + session + rebalance timeout) + 40 x backoff, runs continued to 4 x B"),
     "C07": dict(ready=True, engine="simcluster", level="fault_enumeration", design_ref="DESIGN.md §6 C07",
                 technique="runtime monitoring: atomicity checker (API outcomes vs. an independent read_committed reading of the "
                           "simulated logs and the group's committed offsets) + wire-order checker over the coordinator's / "
